@@ -280,6 +280,7 @@ def shards(tier, seed):
     for t0 in HOSTILE:
         out.append(("hostile", LH, t0))
     out.append(("literals",))
+    out.append(("isolation",))
     for i in range(len(operand_forms(True, True))):
         out.append(("trees", "float", i))
         if tier != "quick":
@@ -505,6 +506,74 @@ def run_trees(acc, nt, tier, idx):
     acc.sample({"clause": "tree", "registry": nt, "first": first[0], "example": "6/\u03a9 (3)  ==  6 / \u03a9 * (3)"})
 
 
+# ----------------------------------------------------------------------------- preprocessors belong to one registry
+
+ISO_STRINGS = ["5 m-2 m", "2 m", "m s", "3 m**2", "2**3 m", "m/s", "2 m - 3 m", "m^2", "4 s m-1", "m2", "2 m+3", "m-2", "1 m-1 s"]
+
+
+def run_isolation(acc):
+    """a preprocessor given to one registry (at construction or by appending to its list) rewrites the input of THAT
+    registry only: every order of {build plain A, build B with a preprocessor, append one to B, build plain C, build D
+    with another preprocessor}, and after each step every plain registry built so far parses the probe strings as a
+    lone plain registry does"""
+    import re
+
+    pint = core.boot()
+
+    def udunits(x):  # UDUNITS-style exponents: m2 -> m**2, m-1 -> m**-1 (the example of pint's documentation)
+        return re.sub(r"(?<=[A-Za-z])(?![A-Za-z])(?<![0-9\-][eE])(?<![0-9\-])(?=[0-9\-])", "**", x)
+
+    def swap(x):  # harmless for unit names (a registry also runs its preprocessors while it loads its systems)
+        return x.replace("2 m", "20 m")
+
+    def observe(reg):
+        out = []
+        for st in ISO_STRINGS:
+            o = pint_eval(reg.parse_expression, st)
+            out.append((st, (o[0], show(o[1])) if o[0] == "ok" else o))
+        return out
+
+    lines = ["meter = [length] = m", "second = [time] = s"]
+
+    def build(**kw):
+        return regs.tiny(lines, non_int_type="float", **kw)
+
+    lone = observe(build())
+    steps = ["plain A", "B(preprocessors=[udunits])", "B.preprocessors.append(swap)", "plain C", "D(preprocessors=[swap])"]
+    for order in itertools.permutations(range(len(steps))):
+        if order.index(2) < order.index(1):
+            continue  # B has to exist before it is appended to
+        regs_, plain, hist = {}, [], []
+        for i in order:
+            hist.append(steps[i])
+            if i == 0:
+                regs_["A"] = build(); plain.append("A")
+            elif i == 1:
+                regs_["B"] = build(preprocessors=[udunits])
+            elif i == 2:
+                regs_["B"].preprocessors.append(swap)
+            elif i == 3:
+                regs_["C"] = build(); plain.append("C")
+            else:
+                regs_["D"] = build(preprocessors=[swap])
+            for name in plain:
+                acc.ev()
+                acc.nt(("isolation", order, len(hist), name))
+                got = observe(regs_[name])
+                for (st, g), (_, w) in zip(got, lone):
+                    if g != w:
+                        acc.violation(["isolation", "parse_expression", "preprocessor-of-another-registry-applied", "plain-registry"], {"history": list(hist), "registry": name, "string": st}, w, g)
+                        break
+    # ... and B itself does apply its own
+    b = build(preprocessors=[udunits])
+    o = pint_eval(b.parse_expression, "4 s m-1")
+    acc.ev()
+    if o[0] != "ok" or dict(o[1]._units) != {"second": 1, "meter": -1}:
+        acc.violation(["isolation", "parse_expression", "own-preprocessor-not-applied", "configured-registry"], {"string": "4 s m-1"}, "4 s/m", show(o[1]) if o[0] == "ok" else o)
+    acc.outcome("isolation")
+    acc.sample({"clause": "isolation", "history": steps, "probe": ISO_STRINGS[0], "expected": "3 m in every registry that was given no preprocessor"})
+
+
 def run_parserhelper(acc, maxlen, prefix):
     """ParserHelper.from_string over the names-and-numbers sub-language (no + -)"""
     from pint.util import ParserHelper
@@ -669,6 +738,8 @@ def run_shard(acc, shard, tier, seed):
         run_literals(acc)
     elif k == "trees":
         run_trees(acc, shard[1], tier, shard[2])
+    elif k == "isolation":
+        run_isolation(acc)
     else:
         raise core.HarnessError(str(shard))
 
@@ -677,7 +748,9 @@ def replay(rec):
     site, case = rec["site"], rec["case"]
     acc = core.Acc(PROPERTY)
     nt = case.get("registry", "float")
-    if site[0] == "no-execution":
+    if site[0] == "isolation":
+        run_isolation(acc)
+    elif site[0] == "no-execution":
         toks = case["string"].split(" ")
         run_hostile(acc, len(toks), toks[0])
     elif site[0] == "literal":
@@ -708,7 +781,7 @@ MANIFEST = {
     "applicable inverse image of the documented preprocessing (juxtaposition, ^, unicode superscripts, per, squared/cubed/square/sq/cubic) of every extended string must give the same value; float, Fraction and "
     "Decimal registries, Quantity(str) and ParserHelper.from_string; the same sweep with a unit whose symbol is a non-ASCII word character; pairs of rewrites at once (superscript + blank); every three-operand tree X op Y op Z "
     "(operands 2 / m / ohm-sign, bare or parenthesised, with or without a superscript exponent and a leading minus; 9 operator spellings incl. blank and 'per'; spaced and tight layouts: 0.6M strings quick, 7.6M thorough) against "
-    "CPython; literal typing; all strings up to length 3 (4) over a 22-token hostile alphabet under sys.addaudithook with attribute-recording sentinels.",
+    "CPython; preprocessors stay with their registry (every order of building plain registries, registries with a preprocessor and appending one; plain registries must keep parsing 13 probe strings unchanged); literal typing; all strings up to length 3 (4) over a 22-token hostile alphabet under sys.addaudithook with attribute-recording sentinels.",
     "note": "Trusted: CPython's parser as the definition of Python precedence; the 6 literal rewrite rules. Not covered: strings longer than the bound, arbitrary unicode fuzz (sampling family), the +/- "
     "uncertainty operator (C19), '%' (rewritten to 'percent' by the default preprocessor). Powers beyond ~1e6 bits are skipped on both sides.",
     "ref": "DESIGN.md §4 C07",
